@@ -208,7 +208,10 @@ func (p *planner) shuffled(l []int) []int {
 }
 
 // changeOp builds a validator change: replace / add / remove, new weights, new thresholds.
-func (p *planner) changeOp() string {
+func (p *planner) changeOp() string { return p.changeOpKind(-1) }
+
+// changeOpKind: kind 0 replace, 1 add, 2 remove, 3 weight change, -1 random.
+func (p *planner) changeOpKind(kind int) string {
 	tip, _, _ := p.heights()
 	cur, _, _ := p.s.validatorsAt(tip + 1)
 	type hw struct{ h, w int }
@@ -224,7 +227,11 @@ func (p *planner) changeOp() string {
 			outside = append(outside, i)
 		}
 	}
-	switch k := p.rng.Intn(4); {
+	k := kind
+	if k < 0 {
+		k = p.rng.Intn(4)
+	}
+	switch {
 	case k == 0 && len(outside) > 0: // replace one
 		next[p.rng.Intn(len(next))] = hw{outside[p.rng.Intn(len(outside))], 1}
 	case k == 1 && len(outside) > 0: // add one
@@ -274,6 +281,117 @@ func (p *planner) certifyRound() bool {
 
 // ---------------------------------------------------------------------------------------------
 
+// subsetsOf: every non-empty subset for up to 7 validators; for larger sets (8, 15, 16, 17 ..) all
+// signers, all but one, minimal quorums, quorums minus one signer and random subsets.
+func (p *planner) subsetsOf(h uint32, hs []int) [][]int {
+	var res [][]int
+	if len(hs) <= 7 {
+		for mask := 1; mask < 1<<len(hs); mask++ {
+			var sub []int
+			for i, v := range hs {
+				if mask>>i&1 == 1 {
+					sub = append(sub, v)
+				}
+			}
+			res = append(res, sub)
+		}
+		return res
+	}
+	res = append(res, append([]int{}, hs...))
+	for i := range hs {
+		if i < 8 || p.rng.Intn(3) == 0 {
+			res = append(res, append(append([]int{}, hs[:i]...), hs[i+1:]...))
+		}
+	}
+	for i := 0; i < 8; i++ {
+		q := p.quorum(h, true)
+		res = append(res, q)
+		if len(q) > 1 {
+			res = append(res, q[1:]) // usually just below the threshold
+		}
+	}
+	for i := 0; i < 10; i++ {
+		k := 1 + p.rng.Intn(len(hs))
+		res = append(res, p.shuffled(hs)[:k])
+	}
+	return res
+}
+
+// genBoundary: the size of the validator set crosses a multiple of 8 through a validator change
+// (7 -> 8, 9 -> 8, 8 -> 9, 15 -> 16 ..): the bitmap length ceil(n/8) changes with it.  Heights of the old
+// and of the new set are certified by all signers and by minimal quorums, through the gossip
+// validator and through Certify, and carried by blocks.
+func genBoundary(rng *rand.Rand, c config, kind int) []string {
+	p := newPlanner(rng, c)
+	defer p.s.close()
+	p.grow(2)
+	p.certifyRound()
+	p.extend(rng.Intn(3))
+	if out := p.do(p.changeOpKind(kind)); out != "ok" {
+		panic("c06 planner: change: " + out)
+	}
+	p.sync()
+	H := p.s.n.Height()
+	round := func(viaCertify, all bool) {
+		_, _, mhc := p.heights()
+		top := p.certifiableTop()
+		if top <= mhc {
+			return
+		}
+		p.do("clear")
+		signers := p.quorum(top, !all)
+		if viaCertify {
+			for _, v := range p.shuffled(signers) {
+				p.do(fmt.Sprintf("certify %d %d %d", v, top-1, top))
+			}
+		} else {
+			p.do(scOp(top, p.shuffled(signers), "ok"))
+		}
+		p.do("getac")
+		p.do("block")
+		p.sync()
+	}
+	for i := 0; i < 40; i++ {
+		_, mhpc, mhc := p.heights()
+		if mhc >= H+2 && i > 6 {
+			break
+		}
+		if mhpc > mhc {
+			round(rng.Intn(2) == 0, rng.Intn(2) == 0)
+		} else {
+			p.extend(1 + rng.Intn(3))
+		}
+	}
+	// both kinds of aggregates for the new set explicitly
+	p.grow(1)
+	round(false, true)
+	p.grow(1)
+	round(true, false)
+	if _, mhpc, _ := p.heights(); mhpc >= H+3 {
+		p.do(fmt.Sprintf("liveness %d", H))
+	}
+	// a tampered and a valid explicit aggregate for the new set
+	p.grow(1)
+	_, _, mhc := p.heights()
+	if top := p.certifiableTop(); top > mhc {
+		q := p.quorum(top, true)
+		bits := p.bitsFor(top, q)
+		p.do(fmt.Sprintf("verify %d %s00 %s", top, corr.Hex(bits), sigOf(q, "own", top)))
+		if len(bits) > 1 {
+			p.do(fmt.Sprintf("verify %d %s %s", top, corr.Hex(bits[:len(bits)-1]), sigOf(q, "own", top)))
+		}
+		p.do(fmt.Sprintf("vblock %d %s %s", top, corr.Hex(bits), sigOf(p.shuffled(q), "own", top)))
+		p.sync()
+	}
+	return p.finish()
+}
+
+func fixedConfig(rng *rand.Rand, nv int) config {
+	c := randConfig(rng, nv, nv)
+	c.extra = 2
+	return c
+}
+
 // genSubsets: every non-empty subset of the validators signs a certifiable height.
 func genSubsets(rng *rand.Rand, c config) []string {
 	p := newPlanner(rng, c)
@@ -293,13 +411,7 @@ func genSubsets(rng *rand.Rand, c config) []string {
 		h = top
 	}
 	hs := p.activeHolders(h)
-	for mask := 1; mask < 1<<len(hs); mask++ {
-		var sub []int
-		for i, v := range hs {
-			if mask>>i&1 == 1 {
-				sub = append(sub, v)
-			}
-		}
+	for _, sub := range p.subsetsOf(h, hs) {
 		p.do("clear")
 		if h-1 > mhc && rng.Intn(4) == 0 { // a lower height with a full quorum: the fallback candidate
 			p.do(scOp(h-1, p.shuffled(p.activeHolders(h-1)), "ok"))
@@ -837,6 +949,30 @@ func (prop) Generate(rng *rand.Rand, tier string) []corr.Case {
 	add("lifecycle", 3*mul, func(r *rand.Rand) []string { return genLifecycle(r, randConfig(r, 4, 6)) })
 	add("poolops", 5*mul, func(r *rand.Rand) []string { return genPoolOps(r, randConfig(r, 4, 6), false) })
 	add("poolops-long", 1+mul/3, func(r *rand.Rand) []string { return genPoolOps(r, randConfig(r, 4, 4), true) })
+	// validator sets whose size is a multiple of 8 (bitmap of exactly n/8 bytes) and their neighbours
+	sizes := []int{8}
+	rep := 1
+	if thorough {
+		sizes = []int{8, 8, 15, 16, 16, 17, 24}
+		rep = 2
+	}
+	for _, nv := range sizes {
+		nv := nv
+		add(fmt.Sprintf("subsets-%d", nv), 2*rep, func(r *rand.Rand) []string { return genSubsets(r, fixedConfig(r, nv)) })
+		add(fmt.Sprintf("tamper-%d", nv), rep, func(r *rand.Rand) []string { return genTamper(r, fixedConfig(r, nv)) })
+		add(fmt.Sprintf("certify-%d", nv), rep, func(r *rand.Rand) []string { return genCertify(r, fixedConfig(r, nv)) })
+		add(fmt.Sprintf("lifecycle-%d", nv), rep, func(r *rand.Rand) []string { return genLifecycle(r, fixedConfig(r, nv)) })
+		add(fmt.Sprintf("commits-%d", nv), rep, func(r *rand.Rand) []string { return genCommits(r, fixedConfig(r, nv), false) })
+	}
+	type cross struct{ nv, kind int }
+	crossings := []cross{{7, 1}, {9, 2}, {8, 1}, {8, 2}}
+	if thorough {
+		crossings = append(crossings, cross{15, 1}, cross{17, 2}, cross{16, 1}, cross{16, 2}, cross{8, 0}, cross{16, 3}, cross{23, 1})
+	}
+	for _, x := range crossings {
+		x := x
+		add(fmt.Sprintf("boundary-%d", x.nv), rep, func(r *rand.Rand) []string { return genBoundary(r, fixedConfig(r, x.nv), x.kind) })
+	}
 
 	cases := make([]corr.Case, len(jobs))
 	var wg sync.WaitGroup
